@@ -300,6 +300,9 @@ def empi_contract(m):
         # counts are non-negative (definition) at the recorded size
         n_k = g["nget"](g["kk"])
         out += [cnt[v](n_k) >= 0 for v in range(m)]
+        # instance of the arithmetic lemma "frequencies of counts that sum to n sum to one" (discharged on its own below)
+        out += [z3.Implies(z3.And(n_k >= 1, z3.Sum([cnt[v](n_k) for v in range(m)]) == n_k),
+                           z3.Sum([z3.ToReal(cnt[v](n_k)) / z3.ToReal(n_k) for v in range(m)]) == 1)]
         if isinstance(g["data"], list):
             L = len(g["data"])
             out += [z3.Implies(z3.And(n_k >= 0, n_k <= L), z3.Or([n_k == j for j in range(L + 1)]))]
@@ -360,6 +363,9 @@ def empi_contract(m):
                               "entries-sum-to-one": "every empirical distribution sums to one",
                               "raises-only-ValueError": "rejections are ValueError"})
     c.canary_native = canary_native
+    lc = [z3.Int(f"lc{v}") for v in range(m)]
+    ln = z3.Int("ln")
+    c.lemmas = [("frequencies-sum-to-one", [ln >= 1, z3.Sum(lc) == ln], z3.Sum([z3.ToReal(x) / z3.ToReal(ln) for x in lc]) == 1)]
     return c
 
 
